@@ -77,6 +77,14 @@ func (e *Env) evalModItems(exprs []ast.Expr) []modItem {
 					continue
 				case "star":
 					v := e.eval(call.Args[0])
+					if v.K == KStruct && e.err == nil {
+						// a struct held by value: everything inside it
+						ref, _, _ := e.evalAddr(call.Args[0])
+						if e.err == nil {
+							out = append(out, modItem{kind: "sub", ref: ref, src: src})
+						}
+						continue
+					}
 					ref := v.S
 					if v.K == KIface {
 						ref = v.Pay
@@ -1155,6 +1163,11 @@ func (r *FnRun) recordRecv(st *State, ch string, v Val) {
 		h = sx("store", h, sum, sAdd(sx("select", st.heap["I"], sum), v.S))
 	}
 	r.setHeap(st, "I", h)
+	if v.K == KSlice && v.T != nil && isByteSlice(v.T) {
+		// ghost: concatenation of all byte chunks received from this channel
+		cat := sx("fld", ch, "906")
+		r.setHeap(st, "S", sx("store", st.heap["S"], cat, sx("bcat", sx("select", st.heap["S"], cat), r.seqOfSlice(st, v))))
+	}
 }
 
 func (r *FnRun) execRecv(st *State, x *ssa.UnOp, ch Val) {
@@ -1165,6 +1178,11 @@ func (r *FnRun) execRecv(st *State, x *ssa.UnOp, ch Val) {
 	r.recordRecv(st, ch.S, v)
 	if x.CommaOk {
 		ok := r.fresh("recv.ok", "Bool")
+		// ok == false only on a closed (and drained) channel, and then the value is the zero value
+		st.assume(sImp(sNot(ok), sx("select", st.heap["B"], sx("fld", ch.S, "904"))))
+		if v.K == KSlice {
+			st.assume(sImp(sNot(ok), sAnd(sEq(v.Bas, "null"), sEq(v.Len, "0"))))
+		}
 		st.vals[x] = Val{K: KTuple, T: x.Type(), Fs: []Val{v, boolVal(ok)}}
 		return
 	}
@@ -1173,11 +1191,19 @@ func (r *FnRun) execRecv(st *State, x *ssa.UnOp, ch Val) {
 
 func (r *FnRun) execSend(st *State, x *ssa.Send) {
 	ch := r.val(st, x.Chan)
-	r.val(st, x.X)
+	sv := r.val(st, x.X)
 	r.incBlocked(st)
 	st.assume(sNot(sEq(ch.S, "null"))) // send on a nil channel never completes
 	cnt := sx("fld", ch.S, "903")
 	r.setHeap(st, "I", sx("store", st.heap["I"], cnt, sAdd(sx("select", st.heap["I"], cnt), "1")))
+	if sv.K == KInt {
+		sum := sx("fld", ch.S, "905")
+		r.setHeap(st, "I", sx("store", st.heap["I"], sum, sAdd(sx("select", st.heap["I"], sum), sv.S)))
+	}
+	if sv.K == KSlice && sv.T != nil && isByteSlice(sv.T) {
+		cat := sx("fld", ch.S, "907")
+		r.setHeap(st, "S", sx("store", st.heap["S"], cat, sx("bcat", sx("select", st.heap["S"], cat), r.seqOfSlice(st, sv))))
+	}
 }
 
 func (r *FnRun) execSelect(st *State, x *ssa.Select) {
@@ -1212,6 +1238,15 @@ func (r *FnRun) execSelect(st *State, x *ssa.Select) {
 				h2 = sx("store", h2, sum, sAdd(sx("select", h, sum), v.S))
 			}
 			r.setHeap(st, "I", sIte(taken, h2, h))
+			if v.K == KSlice && v.T != nil && isByteSlice(v.T) {
+				cat := sx("fld", ch.S, "906")
+				hs := st.heap["S"]
+				r.setHeap(st, "S", sIte(taken, sx("store", hs, cat, sx("bcat", sx("select", hs, cat), r.seqOfSlice(st, v))), hs))
+			}
+			if !x.Blocking {
+				// a receive from a closed channel is always ready: the default branch is not taken
+				st.assume(sImp(sx("select", st.heap["B"], sx("fld", ch.S, "904")), sNot(sEq(idx, "(- 1)"))))
+			}
 		} else {
 			r.val(st, s.Send)
 			cnt := sx("fld", ch.S, "903")
